@@ -200,7 +200,7 @@ def rule_metadata(ctx, tab, rule="R5"):
     """configuration parameters flow into the same-meaning TimeScale fields and out of the getters"""
     F = ctx.facts
     roles = tab["roles"]
-    # 1. configuration setters -> configuration fields
+    # 1. configuration setters -> configuration fields (written as `self.f = x; self` or as `Self { f: x, ..self }`)
     cfg = {}
     for meth in ("duration_seconds", "delay_seconds", "repeat", "reverse"):
         b = F.one(crate="mina_core", name=meth, impl_trait="mina_core::timeline::TimelineConfigurationBuilder")
@@ -208,33 +208,39 @@ def rule_metadata(ctx, tab, rule="R5"):
         ok = len(ps) == 1
         where = None
         if ok:
-            r = ps[0].ret
-            changed = []
-            t = r
-            while t[0] == "upd":
-                changed.append((t[2], t[3]))
-                t = t[1]
-            ok = t == ("param", 1) and len(changed) == 1 and changed[0][1] == ("param", 2) and changed[0][0][0] == "field"
-            where = changed[0][0][1] if ok else None
+            changed = _changed_fields(ps[0].ret, ("param", 1))
+            ok = changed is not None and len(changed) == 1 and list(changed.values())[0] == ("param", 2)
+            where = list(changed)[0] if ok else None
         cfg[meth] = where
         ctx.ob(rule, "config-setter/" + meth, ok, "%s must store its argument in exactly one field" % meth, b["span"],
                what="config-setter")
-    # 2. create_timescale: config fields -> TimeScale roles
-    ct = F.one(crate="mina_core", name="create_timescale")
+    # 2. configuration fields -> TimeScale roles, in the conversion that builds the timeline arguments (helpers inlined)
+    from rules import c11
+    convs = [bb for bb in c11.builders_of(F, c11.TBA) if F.body_unit[bb["id"]][0] == "mina_core"]
+    if len(convs) != 1:
+        ctx.lost(rule, "flow/conversion", "expected one constructor of TimelineBuilderArguments in mina_core, found %s"
+                 % [bb["path"] for bb in convs])
+        return
+    ct = convs[0]
     ps = [p for p in pse.Engine(F).run(ct) if p.outcome == "return"]
-    ok = len(ps) == 1 and ps[0].ret[0] == "agg"
-    if ok:
-        got = dict(ps[0].ret[4])
+    ts_field = [f["name"] for f in F.adt(c11.TBA)["variants"][0]["fields"] if f["ty"] == TT.TS]
+    rets = {repr(dict(p.ret[4]).get(ts_field[0])) if p.ret[0] == "agg" and ts_field else None for p in ps}
+    ok = len(ps) >= 1 and len(rets) == 1 and None not in rets
+    tsv = dict(ps[0].ret[4]).get(ts_field[0]) if ok else None
+    if ok and tsv[0] == "agg" and tsv[2] == TT.TS:
+        got = dict(tsv[4])
         want = {roles["duration"]: "duration_seconds", roles["delay"]: "delay_seconds", roles["repeat"]: "repeat",
                 roles["reverse"]: "reverse"}
         for tsf, meth in want.items():
             v = got.get(tsf)
-            okf = cfg.get(meth) is not None and v == ("field", ("deref", ("param", 1)), cfg[meth])
+            okf = cfg.get(meth) is not None and v in (("field", ("deref", ("param", 1)), cfg[meth]),
+                                                      ("field", ("param", 1), cfg[meth]))
             ctx.ob(rule, "flow/%s->TimeScale.%s" % (meth, tsf), okf,
                    "the value given to %s must become the time scale's %s; it receives %s" % (meth, tsf, show(v)),
                    ct["span"], what="metadata-flow")
     else:
-        ctx.ob(rule, "flow/create_timescale", False, "create_timescale must build a TimeScale", ct["span"], what="metadata-flow")
+        ctx.ob(rule, "flow/conversion", False, "the conversion must build one TimeScale from the configuration; got %s"
+               % (show(tsv) if tsv else sorted(rets, key=str)), ct["span"], what="metadata-flow")
     # 3. getters
     for g, role in (("get_cycle_duration", "duration"), ("get_delay", "delay"), ("get_repeat", "repeat")):
         b = F.one(crate="mina_core", name=g, impl_self_adt=TT.TS)
@@ -261,6 +267,25 @@ def rule_metadata(ctx, tab, rule="R5"):
         check_accessor(ctx, FF, b, rule)
         n += 1
     ctx.floor(rule, "generated Timeline accessors", n, 8)
+
+
+def _changed_fields(r, base):
+    """{field: new value} for a struct value r derived from `base` (update chain or full aggregate); None if neither"""
+    changed = {}
+    t = r
+    while t[0] == "upd":
+        if t[2][0] != "field" or t[2][1] in changed:
+            return None
+        changed[t[2][1]] = t[3]
+        t = t[1]
+    if t == base:
+        return changed
+    if t[0] == "agg" and t[1] == "adt" and not changed:
+        for name, v in t[4]:
+            if v != ("field", base, name):
+                changed[name] = v
+        return changed
+    return None
 
 
 SIBLING = {"cycle_duration": "get_cycle_duration", "delay": "get_delay", "duration": "get_duration",
